@@ -570,8 +570,63 @@ def rearing_clone_check(ctx, rng):
     ctx.case(text, nontrivial=len(full) >= 2 and reared >= 1)
 
 
+def houses_raze_case(rng):
+    """two or three houses; some of them rear a clone of their moot framer, raze it and rear it again -- with their own
+    timing, so that a raze of one house runs while another house was the last one to rear or to be built"""
+    nh = rng.choice([2, 2, 3])
+    houses = ["h%d" % i for i in range(nh)]
+    cyc = [h for h in houses if rng.random() < 0.75] or [houses[0]]
+    L = []
+    waits = {}
+    for h in houses:
+        w1, w2 = rng.randint(1, 4), rng.randint(1, 3)
+        waits[h] = (w1, w2)
+        L += ["house %s" % h, ""]
+        if h in cyc:
+            L += ["  framer boss be active first f0", "    frame f0", "      rear mo as mine be aux in frame f1", "      go next",
+                  "    frame f1", '      do vf rec with tag "%s.f1.enter" at enter' % h, "      go next if recurred >= %d" % w1,
+                  "    frame f2", "      raze %s in frame f1" % rng.choice(["all", "first", "last"]), "      go next",
+                  "    frame f3", "      rear mo as mine be aux in frame f4", "      go next",
+                  "    frame f4", '      do vf rec with tag "%s.f4.enter" at enter' % h, "      go next if recurred >= %d" % w2,
+                  "    frame f5", "      bid stop all", ""]
+        else:
+            L += ["  framer boss be active first f0", "    frame f0", "      go next if recurred >= %d" % (w1 + w2 + 3),
+                  "    frame f5", "      bid stop all", ""]
+        L += ["  framer mo be moot", "    frame x0", '      do vf rec with tag "%s.mo.x0.enter" at enter' % h,
+              '      do vf rec with tag "%s.mo.x0.exit" at exit' % h, ""]
+    return {"text": "\n".join(L) + "\n", "houses": houses, "cycling": cyc}
+
+
+def houses_raze_check(ctx, rng):
+    from vf.flo import runner
+    case = houses_raze_case(rng)
+    text = case["text"]
+    res = runner.run_text(text, maxticks=40)
+    if not res.built:
+        ctx.inconclusive_case("program with several houses did not build: %s" % (res.build_msgs[-1:],))
+        return
+    ctx.case(text, nontrivial=len(case["cycling"]) >= 1)
+    ctx.hit("several_houses_raze_cases")
+    ctx.event(len(res.trace))
+    w = lambda: {"program": text, "events": [(e["tick"], e["framer"], e["tag"]) for e in res.trace], "raised": repr(res.exc)}
+    if not ctx.check(res.exc is None, "several-houses/rear-after-raze-raises/%s" % type(res.exc).__name__,
+                     "rearing the moot framer again after its clone was razed raised %r (the razed clone's name is free again)" % (res.exc,), w):
+        return
+    for h in case["cycling"]:
+        ent = [e for e in res.trace if e["tag"] == "%s.mo.x0.enter" % h]
+        ext = [e for e in res.trace if e["tag"] == "%s.mo.x0.exit" % h]
+        ctx.hit("rear_raze_rear_cycles")
+        ctx.check(len(ent) == 2 and len(ext) >= 1 and ent[0]["framer"] == ent[1]["framer"] and
+                  res.trace.index(ext[0]) < res.trace.index(ent[1]),
+                  "several-houses/razed-clone-name-not-free-or-clone-runs-on",
+                  "house %s: the clone reared after the raze is expected to be entered once more under the name that became free; "
+                  "enters %s, exits %s" % (h, [(e["tick"], e["framer"]) for e in ent], [(e["tick"], e["framer"]) for e in ext]), w)
+
+
 def worker(ctx, job):
     from vf.flo import clones as C
+    for seed in job.get("hraze", []):
+        houses_raze_check(ctx, random.Random(seed))
     for seed in job.get("rearing", []):
         rearing_clone_check(ctx, random.Random(seed))
     # two clones of one moot framer (under one frame, or in two framers under the same clone tag) whose transitions wait
@@ -609,7 +664,9 @@ def run(ctx):
     k = 14
     rearing = [ctx.rng.randrange(1 << 30) for _ in range(ctx.pick(160, 2400))]
     twins = [ctx.rng.randrange(1 << 30) for _ in range(ctx.pick(240, 6000))]
-    ctx.shard([{"seeds": seeds[i::k], "rearing": rearing[i::k], "twins": twins[i::k]} for i in range(k)], timeout=ctx.pick(200, 900), procs=k)
+    hraze = [ctx.rng.randrange(1 << 30) for _ in range(ctx.pick(120, 3000))]
+    ctx.floor("rear_raze_rear_cycles", ctx.pick(100, 2500))
+    ctx.shard([{"seeds": seeds[i::k], "rearing": rearing[i::k], "twins": twins[i::k], "hraze": hraze[i::k]} for i in range(k)], timeout=ctx.pick(200, 900), procs=k)
     ctx.floor("twin_clones_in_one_frame", 30)
     ctx.floor("twin_clones_in_two_framers", 30)
     ctx.floor("rearing_clone_cycles", ctx.pick(200, 3000))
